@@ -6,6 +6,7 @@ import (
 	"github.com/lightninglabs/pool/auctioneer"
 	"github.com/lightninglabs/pool/auctioneerrpc"
 	"github.com/lightninglabs/pool/order"
+	"github.com/lightninglabs/pool/sidecar"
 )
 
 // verifC19OrderMgr is an order.Manager of which only the pending-batch accessors
@@ -36,6 +37,18 @@ func VerifC19RPCServerHandle(client *auctioneer.Client, pending *order.Batch,
 func VerifC19AcceptorHandle(client *auctioneer.Client, pending *order.Batch,
 	msg *auctioneerrpc.ServerAuctionMessage) error {
 
-	a := &SidecarAcceptor{client: client, pendingBatch: pending}
+	// The acceptor is in its usual working state: it expects a channel for
+	// (at least) one pending sidecar order.
+	var nonce order.Nonce
+	nonce[0] = 0x19
+	ticket := &sidecar.Ticket{
+		ID: [8]byte{1, 9}, State: sidecar.StateExpectingChannel,
+		Offer: sidecar.Offer{Capacity: 1_000_000, LeaseDurationBlocks: 2016},
+		Order: &sidecar.Order{BidNonce: nonce},
+	}
+	a := &SidecarAcceptor{
+		client: client, pendingBatch: pending,
+		pendingSidecarOrders: map[order.Nonce]*sidecar.Ticket{nonce: ticket},
+	}
 	return a.handleServerMessage(msg)
 }
